@@ -480,11 +480,94 @@ def elements():
     return "".join(out)
 
 
+# ----------------------------------------------------------------- Base64 (C12)
+
+def base64_engines():
+    """leptos_server/src/lib.rs: the base64 engine used by `IntoEncodedString for Vec<u8>` (server) and by
+    `FromEncodedStr for [u8]` (client) — the text form of every binary codec — resolved to the alphabet
+    and padding configuration the `base64` crate (version pinned in Cargo.lock) defines for that engine."""
+    import glob
+    rel = "leptos_server/src/lib.rs"
+    src = strip_rust_comments(read_repo(rel))
+    enc_impl = section(src, r"impl\s+IntoEncodedString\s+for\s+Vec\s*<\s*u8\s*>\s*\{", "impl IntoEncodedString for Vec<u8>")
+    dec_impl = section(src, r"impl\s+FromEncodedStr\s+for\s+\[\s*u8\s*\]\s*\{", "impl FromEncodedStr for [u8]")
+    m_enc = re.findall(r"\b([A-Z][A-Z0-9_]*)\s*\.\s*encode\s*\(\s*self\s*\)", enc_impl)
+    m_dec = re.findall(r"\b([A-Z][A-Z0-9_]*)\s*\.\s*decode\s*\(\s*data\s*\)", dec_impl)
+    if len(m_enc) != 1 or len(m_dec) != 1:
+        raise ExtractError("expected exactly one `<ENGINE>.encode(self)` / `<ENGINE>.decode(data)`, found %r / %r" % (m_enc, m_dec))
+    if len(re.findall(r"=>|\bif\b|\bmatch\b", enc_impl + dec_impl)) != 0:
+        raise ExtractError("the Vec<u8>/[u8] impls are no longer a single engine call")
+    # the crate version leptos_server is locked to
+    lock = read_repo("Cargo.lock")
+    versions = re.findall(r'name = "base64"\nversion = "([^"]+)"', lock)
+    req = re.search(r'^base64\s*=\s*"([^"]+)"', read_repo("leptos_server/Cargo.toml"), flags=re.M)
+    if not req:
+        raise ExtractError("leptos_server/Cargo.toml: no plain `base64 = \"x.y.z\"` requirement")
+    want = [v for v in versions if v.split(".")[:2] == req.group(1).split(".")[:2]]
+    if len(want) != 1:
+        raise ExtractError("Cargo.lock: cannot single out the base64 version for requirement %s among %r" % (req.group(1), versions))
+    dirs = glob.glob(os.path.expanduser("~/.cargo/registry/src/*/base64-%s" % want[0]))
+    if len(dirs) != 1:
+        raise ExtractError("base64-%s sources not found (or ambiguous) in the cargo registry: %r" % (want[0], dirs))
+    def crate(relp):
+        try:
+            with open(os.path.join(dirs[0], relp), encoding="utf-8") as f:
+                return strip_rust_comments(f.read())
+        except OSError as e:
+            raise ExtractError("cannot read base64 crate file %s: %s" % (relp, e))
+    gp, alpha = crate("src/engine/general_purpose/mod.rs"), crate("src/alphabet.rs")
+
+    def resolve(engine):
+        m = re.search(r"pub\s+const\s+%s\s*:\s*GeneralPurpose\s*=\s*GeneralPurpose::new\s*\(\s*&alphabet::(\w+)\s*,\s*(\w+)\s*\)" % re.escape(engine), gp)
+        if not m:
+            raise ExtractError("base64: engine %s is not a `GeneralPurpose::new(&alphabet::X, CONFIG)` constant" % engine)
+        a = re.search(r"pub\s+const\s+%s\s*:\s*Alphabet\s*=\s*Alphabet::from_str_unchecked\s*\(\s*\"([^\"\\]{64})\"\s*,?\s*\)" % re.escape(m.group(1)), alpha)
+        if not a:
+            raise ExtractError("base64: alphabet %s is not a 64-character literal" % m.group(1))
+        cfg = re.search(r"pub\s+const\s+%s\s*:\s*GeneralPurposeConfig\s*=\s*GeneralPurposeConfig::new\s*\(\s*\)((?:\s*\.\s*\w+\s*\([^()]*\))*)\s*;" % re.escape(m.group(2)), gp)
+        if not cfg:
+            raise ExtractError("base64: config %s not found" % m.group(2))
+        calls = re.findall(r"\.\s*(\w+)\s*\(\s*([^()]*?)\s*\)", cfg.group(1))
+        # defaults of GeneralPurposeConfig::new(): padding written, canonical padding required, trailing bits rejected
+        pad, mode, trailing = True, "RequireCanonical", False
+        for name, arg in calls:
+            if name == "with_encode_padding":
+                pad = arg == "true"
+            elif name == "with_decode_padding_mode":
+                mode = arg.split("::")[-1]
+            elif name == "with_decode_allow_trailing_bits":
+                trailing = arg == "true"
+            else:
+                raise ExtractError("base64: unknown config call %s(%s)" % (name, arg))
+        return a.group(1), pad, mode, trailing
+
+    ea, epad, _, _ = resolve(m_enc[0])
+    da, _, dmode, dtrail = resolve(m_dec[0])
+    out = []
+    out.append("/-! GENERATED by /verif/extract.py Base64 from %s and base64-%s — do not edit.\n\n" % (rel, want[0]))
+    out.append("The engines behind `Vec<u8>::into_encoded_string` (server) and `<[u8]>::from_encoded_str` (client):\n"
+               "their alphabets (64 code points each), whether the encoder writes padding, the decoder's padding mode\n"
+               "and whether it tolerates non-zero trailing bits. -/\n")
+    out.append("namespace Leptos.Gen.Base64\n\n")
+    out.append("-- server: %s\n" % m_enc[0])
+    out.append("def encodeEngine : List Nat := %s\n" % _nat_list(m_enc[0]))
+    out.append("def encodeAlphabet : List Nat := %s\n" % _nat_list(ea))
+    out.append("def encodePads : Bool := %s\n\n" % ("true" if epad else "false"))
+    out.append("-- client: %s\n" % m_dec[0])
+    out.append("def decodeEngine : List Nat := %s\n" % _nat_list(m_dec[0]))
+    out.append("def decodeAlphabet : List Nat := %s\n" % _nat_list(da))
+    out.append("def decodePaddingMode : List Nat := %s  -- %s\n" % (_nat_list(dmode), dmode))
+    out.append("def decodeAllowsTrailingBits : Bool := %s\n\n" % ("true" if dtrail else "false"))
+    out.append("end Leptos.Gen.Base64\n")
+    return "".join(out)
+
+
 # ----------------------------------------------------------------- registry
 
 TABLES = {
     "ErrorKinds": error_kinds,
     "Transfer": transfer,
+    "Base64": base64_engines,
     "EscapeTables": escape_tables,
     "Elements": elements,
 }
